@@ -483,6 +483,9 @@ def same_term(a, b) -> bool:
         return a.t.eq(b.t)
     if isinstance(a, Sym) or isinstance(b, Sym):
         return False
+    ta, tb = getattr(a, '_tag', None), getattr(b, '_tag', None)
+    if ta is not None or tb is not None:
+        return ta == tb
     return a is b or (type(a) is type(b) and a == b)
 
 
@@ -958,6 +961,31 @@ def z3_value_to_py(v, numeric='fraction'):
     raise HarnessError(f"cannot convert model value {v}")
 
 
+class TaggedFraction(Fraction):
+    """a concrete value that remembers which symbol it stands for (arithmetic yields plain Fractions)"""
+    def __new__(cls, value, tag):
+        self = super().__new__(cls, value)
+        self._tag = tag
+        return self
+
+    def __deepcopy__(self, memo): return self
+
+    def __copy__(self): return self
+
+    def __reduce__(self): return (TaggedFraction, (Fraction(self.numerator, self.denominator), self._tag))
+
+
+class TaggedFloat(float):
+    def __new__(cls, value, tag):
+        self = super().__new__(cls, value)
+        self._tag = tag
+        return self
+
+    def __deepcopy__(self, memo): return self
+
+    def __copy__(self): return self
+
+
 class ConcEnv:
     """Concrete re-execution of a scenario with values from a z3 model or from a replay table."""
     mode = 'conc'
@@ -998,18 +1026,20 @@ class ConcEnv:
             v = 0
         else:
             c = z3.Int(name) if sort == 'int' else z3.Real(name)
-            if self.model[c] is None:
-                # don't-care for the solver: give every such symbol its own value, so that "is literally the same
-                # stored value" checks keep their meaning in the concrete run
-                self._dc = getattr(self, '_dc', 0) + 1
-                v = 100 + self._dc if sort == 'int' else Fraction(200 + 3 * self._dc, 2)
+            if False:
+                pass
             else:
                 v = z3_value_to_py(self.model.eval(c, model_completion=True))
         tab[name] = str(v) if isinstance(v, Fraction) else v
         return v
 
     def real(self, name, flavor='py'):
-        return self._conv(self._var(name, 'real'), flavor)
+        v = self._conv(self._var(name, 'real'), flavor)
+        if isinstance(v, Fraction):
+            return TaggedFraction(v, name)
+        if type(v) is float:
+            return TaggedFloat(v, name)
+        return v
 
     def int(self, name, flavor='py'):
         v = self._var(name, 'int')
